@@ -162,19 +162,20 @@ def _params_only(e):
     if k == 'field':
         return _params_only(e[1])
     if k == 'call':
-        return re.search(r'(::remaining|::len)$', e[1]) is not None and all(_params_only(a) for a in e[2])
+        return re.search(r'(::remaining|::len|::buf|::buf_mut|::as_ref|::deref|::deref_mut|::chunk|::as_slice)$', e[1]) is not None and all(_params_only(a) for a in e[2])
     if k == 'bin':
         return _params_only(e[2]) and _params_only(e[3])
     return False
 
 
-def helper_ok_facts(prog, crate, callee):
+def helper_ok_facts(prog, crate, callee, historical=False):
     """comparisons over its own parameters that hold whenever a local helper returns Ok / Some (a validating helper such
     as `ensure_len_remaining(buf, len)?`): [(op, a, b)] with ('arg', k, _) leaves"""
     hid = crate + '::' + callee
-    if hid in _OKFACTS:
-        return _OKFACTS[hid]
-    _OKFACTS[hid] = []
+    ck = (hid, historical)
+    if ck in _OKFACTS:
+        return _OKFACTS[ck]
+    _OKFACTS[ck] = []
     h = prog.bodies.get(hid)
     if h is None or h.kind not in ('Fn', 'AssocFn'):
         return []
@@ -208,12 +209,13 @@ def helper_ok_facts(prog, crate, callee):
                 continue
             # nothing may consume the buffer between the comparison and the return
             recvs = [x[2][0] for x in list(subexprs(a)) + list(subexprs(b)) if x and x[0] == 'call' and x[2]]
-            if any(mutated_between(h, tb, e, r) for r in recvs):
+            # (historical: the comparison held when it was made -- enough to bound a VALUE, not the buffer's present state)
+            if not historical and any(mutated_between(h, tb, e, r) for r in recvs):
                 continue
             fs.add((op, _nocallsite(a), _nocallsite(b)))
         common = fs if common is None else (common & fs)
-    _OKFACTS[hid] = sorted(common or [])
-    return _OKFACTS[hid]
+    _OKFACTS[ck] = sorted(common or [])
+    return _OKFACTS[ck]
 
 
 def _nocallsite(e):
@@ -233,9 +235,10 @@ def _subst_args(e, args):
     return tuple(_subst_args(x, args) if isinstance(x, tuple) else x for x in e)
 
 
-def facts_at(body, bb):
+def facts_at(body, bb, historical=False):
     """comparison facts at a block: the dominating comparisons of the body itself plus what validating local helpers
-    guarantee on the Continue edge of `helper(..)?`"""
+    guarantee on the Continue edge of `helper(..)?` (historical: including comparisons the helper made before it
+    consumed from the buffer -- they bound the compared value, not what remains now)"""
     out = list(body.comparisons_at(bb))
     for cond, val, sbb, tb in body.edge_guards(bb):
         if val != 0 or cond[0] != 'discr':
@@ -246,7 +249,7 @@ def facts_at(body, bb):
         h = strip_refs(c[2][0])
         if h[0] != 'call' or len(h) < 4:
             continue
-        for op, a, b in helper_ok_facts(body.prog, body.crate, h[1]):
+        for op, a, b in helper_ok_facts(body.prog, body.crate, h[1], historical):
             out.append((op, _subst_args(a, h[2]), _subst_args(b, h[2]), sbb, tb))
     return out
 
@@ -726,7 +729,7 @@ def bounded(body, bb, e, op='Add'):
     if not wire_derived(e):
         return 'not read off the wire'
     # wire-derived: needs a dominating comparison against the remaining input
-    for cop, ca, cb, sbb, tb in facts_at(body, bb):
+    for cop, ca, cb, sbb, tb in facts_at(body, bb, historical=True):
         if cb is None:
             continue
         if cop in ('Ge', 'Gt') and _is_any_len(ca) and value_le(e, cb):
